@@ -204,6 +204,9 @@ class TextV:
             return [(p, Custom(SplitV(self.z, lit[0])))]
         if name == "split" and len(args) == 2 and a[0] is not None and _const(eng, args[1]) == 1:
             p.axioms += split1_facts(self.z, a[0])
+            if "on_split1" in p.ghost and not p.ghost.get("on_split1_done"):
+                p.pc += p.ghost["on_split1"]()            # scenario hypotheses about where a level sits inside the path text
+                p.ghost["on_split1_done"] = True
             return [(p, Custom(Split1V(self.z, a[0])))]
         if name == "rsplit" and len(args) == 2 and lit[0] == "/" and _const(eng, args[1]) == 1:
             return [(p, Custom(RSplit1V(self.z)))]
@@ -2710,14 +2713,23 @@ def run_read_row_group(ctx, funcs, timeout, scheme, cats_meta, passed_meta):
         out = R.path_hyps(j) + [z3.Implies(z3.And(0 <= i, i < R.D), z3.And(*R.level_hyps(scheme, scheme, j, i, True)))]
         out += [z3.Implies(z3.And(0 <= i, i < R.D), z3.And(lvl_full == R.lvl(j, i), z3.Implies(R.KEYN(i) == R.KEYN(R.kW), i == R.kW)))]
         out += split_facts(lvl_full, "=")
-        # ASSUMED str.split, positional detail: piece i sits in the text between what precedes it (empty for i == 0, else ending with
-        # the separator) and what follows it (a directory level is followed by '/' + the rest)
-        pre, post = PIECE_PRE(fp, z3.simplify(i)), PIECE_POST(fp, z3.simplify(i))
-        out += [z3.Implies(z3.And(0 <= i, i < R.D), z3.And(fp == z3.Concat(pre, lvl_full, post), z3.PrefixOf(SL, post),
-                                                           z3.If(i == 0, pre == sv(""), z3.SuffixOf(SL, pre))))]
         # the last piece is the file name
         out += [z3.Implies(i == R.D, PIECE["="](lvl_full, 0) != R.KEYN(R.kW))]
         return out + [i <= R.D]
+
+    def positional(j, i):
+        """ASSUMED str.split, positional detail (added only when the code under analysis searches the path text itself, see Split1V):
+        level i sits in the path between what precedes it (empty for i == 0, else ending with '/') and '/' + the rest; names and value
+        texts are single directory names (no '/': partition_on_columns[...].level_reaches_the_path_verbatim)"""
+        fp = R.PATHT(j)
+        lvl_full = PIECE["/"](fp, z3.simplify(i))
+        pre, post = PIECE_PRE(fp, z3.simplify(i)), PIECE_POST(fp, z3.simplify(i))
+        body = [fp == z3.Concat(pre, lvl_full, post), z3.PrefixOf(SL, post), z3.If(i == 0, pre == sv(""), z3.SuffixOf(SL, pre)),
+                z3.Not(z3.Contains(R.TXT(j, i), SL)), z3.Contains(fp, lvl_full)]
+        if scheme == "hive":     # + THEOREMS (hints) that follow from the equations
+            body += [z3.Not(z3.Contains(R.KEYN(i), SL)), z3.Contains(fp, z3.Concat(R.KEYN(i), EQ)),
+                     fp == z3.Concat(pre, R.KEYN(i), EQ, R.TXT(j, i), post)]
+        return [z3.Implies(z3.And(0 <= i, i < R.D), z3.And(*body))]
 
     def h_strmod(eng, p, a, b, node):
         if a.s == "dir%i" and isinstance(b, (PyI, PyB)):
@@ -2736,6 +2748,7 @@ def run_read_row_group(ctx, funcs, timeout, scheme, cats_meta, passed_meta):
     p.ghost["witness:/"] = R.iL
     p.ghost["expected_match"] = c
     p.ghost["hyp_at"] = hyp_at
+    p.ghost["on_split1"] = lambda: positional(R.j0, c)
     if solve(list(p.pc) + [R.D > 1], timeout)[0] == REFUTED:
         ctx.vacuity["requires_sat"] += 1
     else:
@@ -2781,7 +2794,8 @@ def run_read_row_group(ctx, funcs, timeout, scheme, cats_meta, passed_meta):
         res.add(P + "assigned_to_the_column_itself", st_, None, secs, "z3", "the array written and the category list used are those of the SAME partition column")
         st_, m, secs = solve(cs + [z3.Not(ix.v == R.VALNUM(txt, mid_read))], timeout)
         res.add(P + "value_is_parsed_from_own_path_level_of_that_column", st_,
-                {"path": mval(m, R.PATHT(R.j0)), "level": mval(m, c)} if m is not None else None, secs, "z3",
+                {"path": mval(m, R.PATHT(R.j0)), "column": mval(m, key), "its level": mval(m, R.lvl(R.j0, c)),
+                 "text before that level": mval(m, PIECE_PRE(R.PATHT(R.j0), c)), "value text of the level": mval(m, txt)} if m is not None else None, secs, "z3",
                 "the category is val_to_num(<value text of the directory level whose key is the column, in THIS row group's file_path>, "
                 "partition_meta.get(column)): no other row group's path, no other level")
     if not n_done:
